@@ -4,7 +4,7 @@ Helper lemma for the matcher part of C18: the reference matcher (`QueryElement._
 documented selection rule — for every element row, every pair of states, every hydrogen / neighbour / heteroatom count.
 -/
 namespace ChythonModel.Proofs.C18
-open ChythonModel.Gen ChythonModel.Model.C18 ChythonModel.Model
+open ChythonModel.Gen ChythonModel.Model.C18 ChythonModel.Model ChythonModel.Gen.Bits
 
 theorem pyFound_eq_selects (r : ElemRow) (q : Obj) (qh : Option Nat) (o : Obj) (h : Option Nat) (nb het : Nat)
     (hq : q.isotope ≠ some 0) : pyFound r q qh o h nb het = selects q qh o h := by
@@ -25,5 +25,139 @@ theorem pyFound_eq_selects (r : ElemRow) (q : Obj) (qh : Option Nat) (o : Obj) (
 theorem selects_self (o : Obj) (h : Option Nat) : selects o none o h = true := by
   obtain ⟨oi, oc, orad⟩ := o
   cases oi <;> simp [selects]
+
+/-! ## the accelerated test: lifting "found" from hydrogens = 0 / no neighbours to every count
+
+Word 3 of a molecule atom is an OR of five independent parts (isotope+radical, charge, hydrogens, neighbours, heteroatoms) and
+the mask of a query atom without count constraints is an OR containing the three "any count" masks, so `mask & bits == bits`
+splits into one inclusion per part (`subBits_or`); no disjointness of bit ranges is needed for the *found* direction. -/
+
+/-- every bit of `x` is set in `m` — the accelerated matcher's test `mask & bits == bits` -/
+def subBits (x m : Nat) : Prop := m &&& x = x
+
+theorem subBits_iff (x m : Nat) : subBits x m ↔ ∀ i, x.testBit i = true → m.testBit i = true := by
+  unfold subBits
+  constructor
+  · intro h i hi
+    have h2 : (m &&& x).testBit i = x.testBit i := by rw [h]
+    rw [Nat.testBit_and, hi, Bool.and_true] at h2
+    exact h2
+  · intro h
+    apply Nat.eq_of_testBit_eq
+    intro i
+    rw [Nat.testBit_and]
+    cases hx : x.testBit i
+    · simp
+    · rw [h i hx]; rfl
+
+theorem subBits_or (x y m : Nat) : subBits (x ||| y) m ↔ subBits x m ∧ subBits y m := by
+  simp only [subBits_iff, Nat.testBit_or, Bool.or_eq_true]
+  constructor
+  · intro h; exact ⟨fun i hi => h i (Or.inl hi), fun i hi => h i (Or.inr hi)⟩
+  · rintro ⟨h1, h2⟩ i (hi | hi)
+    · exact h1 i hi
+    · exact h2 i hi
+
+theorem subBits_left (x a b : Nat) (h : subBits x a) : subBits x (a ||| b) := by
+  rw [subBits_iff] at h ⊢
+  intro i hi
+  rw [Nat.testBit_or, h i hi]; rfl
+
+theorem subBits_right (x a b : Nat) (h : subBits x b) : subBits x (a ||| b) := by
+  rw [subBits_iff] at h ⊢
+  intro i hi
+  rw [Nat.testBit_or, h i hi, Bool.or_true]
+
+/-- the isotope / radical / charge part of word 3 of a molecule atom -/
+def coreV3 (mdl : Nat) (a : Query.MAtom) : Nat :=
+  (match Bits.isoTruthy a.isotope with
+    | some i => (1 <<< (i + sIsoOff - mdl)) ||| (if a.radical then sIsoRad else sIsoNoRad)
+    | none => if a.radical then sNoIsoRad else sNoIsoNoRad) ||| (1 <<< (a.charge + sChargeOff).toNat)
+
+theorem atomV3_split (mdl : Nat) (a : Query.MAtom) :
+    Bits.atomV3 mdl a = coreV3 mdl a ||| (1 <<< (Bits.hOr a.implH + sHOff)) ||| (1 <<< (a.neighbors + sNbOff)) ||| (1 <<< a.heteroatoms) := rfl
+
+/-- word 3 of the own query atom: everything except the three "any count" masks -/
+def qCoreV3 (qmdl : Nat) (a : Query.QAtom) : Nat :=
+  (match Bits.qIso a.kind with
+    | some i =>
+      (if decide (qmdl ≤ i + qIsoLo) && decide (i ≤ qmdl + qIsoHi) then 1 <<< (i + qIsoOff - qmdl) else qIsoNone)
+        ||| (if a.radical then qIsoRad else qIsoNoRad)
+    | none => if a.radical then qAnyIsoRad else qAnyIsoNoRad) ||| (1 <<< (a.charge + qChargeOff).toNat)
+
+theorem qV3_split (r : ElemRow) (qmdl : Nat) (o : Obj) :
+    (Bits.qWords qmdl (qAtom r o none) none).v3 = qCoreV3 qmdl (qAtom r o none) ||| qHAll ||| qHetAll ||| qNbAll := rfl
+
+theorem encAtom_ok (mdl : Nat) (a : Query.MAtom) (w : Bits.Words) :
+    Bits.encAtom mdl a = .ok w ↔ Bits.atomShiftsOk mdl a = true ∧ (Bits.atomWords mdl a).fit = true ∧ w = Bits.atomWords mdl a := by
+  unfold Bits.encAtom
+  cases h1 : Bits.atomShiftsOk mdl a <;> cases h2 : (Bits.atomWords mdl a).fit <;> simp [eq_comm]
+
+theorem encQAtom_ok (qmdl : Nat) (a : Query.QAtom) (b : Option Query.QBond) (w : Bits.Words) (h : Bits.encQAtom qmdl a b = .ok w) :
+    w = Bits.qWords qmdl a b := by
+  unfold Bits.encQAtom at h
+  cases h1 : Bits.qShiftsOk qmdl a <;> cases h2 : (Bits.qWords qmdl a b).fit <;> simp [h1, h2] at h
+  exact h.symm
+
+theorem fit_iff (w : Bits.Words) : w.fit = true ↔ w.v1 < Bits.two64 ∧ w.v2 < Bits.two64 ∧ w.v3 < Bits.two64 ∧ w.v4 < Bits.two64 := by
+  simp [Bits.Words.fit, and_assoc]
+
+theorem accel_lift (r : ElemRow) (o : Obj) (h : Option Nat) (nb het : Nat)
+    (hh : subBits (1 <<< (Bits.hOr h + sHOff)) qHAll) (hhfit : 1 <<< (Bits.hOr h + sHOff) < Bits.two64)
+    (hnb : subBits (1 <<< (nb + sNbOff)) qNbAll) (hnbfit : 1 <<< (nb + sNbOff) < Bits.two64)
+    (hhet : subBits (1 <<< het) qHetAll) (hhetfit : 1 <<< het < Bits.two64)
+    (base : accelFound r o none o (some 0) 0 0 = some true) :
+    accelFound r o none o h nb het = some true := by
+  unfold accelFound at base ⊢
+  cases hq : r.qmdl with
+  | none => rw [hq] at base; cases base
+  | some qmdl =>
+    rw [hq] at base
+    simp only at base ⊢
+    cases hQ : Bits.encQAtom qmdl (qAtom r o none) none with
+    | error e => rw [hQ] at base; cases base
+    | ok m =>
+      rw [hQ] at base
+      cases hA0 : Bits.encAtom r.mdl (mAtom r o (some 0) 0 0) with
+      | error e => rw [hA0] at base; cases base
+      | ok b0 =>
+        rw [hA0] at base
+        simp only [Option.some.injEq] at base
+        obtain ⟨hs0, hf0, hb0⟩ := (encAtom_ok _ _ _).mp hA0
+        have hs : Bits.atomShiftsOk r.mdl (mAtom r o h nb het) = true := hs0
+        rw [fit_iff] at hf0
+        have hv3 : (Bits.atomWords r.mdl (mAtom r o h nb het)).v3 =
+            coreV3 r.mdl (mAtom r o h nb het) ||| (1 <<< (Bits.hOr h + sHOff)) ||| (1 <<< (nb + sNbOff)) ||| (1 <<< het) := rfl
+        have hv30 : b0.v3 = coreV3 r.mdl (mAtom r o h nb het) ||| (1 <<< (Bits.hOr (some 0) + sHOff)) ||| (1 <<< (0 + sNbOff)) ||| (1 <<< 0) := by
+          rw [hb0]; rfl
+        have hcore_le : coreV3 r.mdl (mAtom r o h nb het) < Bits.two64 := by
+          have : coreV3 r.mdl (mAtom r o h nb het) ≤ b0.v3 := by
+            rw [hv30]
+            exact Nat.le_trans (Nat.le_trans Nat.left_le_or Nat.left_le_or) Nat.left_le_or
+          have h3 : b0.v3 < Bits.two64 := by rw [hb0]; exact hf0.2.2.1
+          omega
+        have hf : (Bits.atomWords r.mdl (mAtom r o h nb het)).fit = true := by
+          rw [fit_iff]
+          refine ⟨hf0.1, hf0.2.1, ?_, hf0.2.2.2⟩
+          rw [hv3]
+          exact Nat.or_lt_two_pow (Nat.or_lt_two_pow (Nat.or_lt_two_pow hcore_le hhfit) hnbfit) hhetfit
+        have hA : Bits.encAtom r.mdl (mAtom r o h nb het) = .ok (Bits.atomWords r.mdl (mAtom r o h nb het)) :=
+          (encAtom_ok _ _ _).mpr ⟨hs, hf, rfl⟩
+        rw [hA]
+        simp only [Option.some.injEq]
+        have hm := encQAtom_ok _ _ _ _ hQ
+        simp only [Bits.rootOk, Bool.and_eq_true, beq_iff_eq] at base ⊢
+        obtain ⟨⟨⟨h1, h2⟩, h3⟩, h4⟩ := base
+        subst hb0
+        refine ⟨⟨⟨h1, h2⟩, ?_⟩, h4⟩
+        have hm3 : m.v3 = qCoreV3 qmdl (qAtom r o none) ||| qHAll ||| qHetAll ||| qNbAll := by rw [hm]; rfl
+        have h3' : subBits (Bits.atomWords r.mdl (mAtom r o (some 0) 0 0)).v3 m.v3 := h3
+        rw [hv30, subBits_or, subBits_or, subBits_or] at h3'
+        show subBits (Bits.atomWords r.mdl (mAtom r o h nb het)).v3 m.v3
+        rw [hv3, subBits_or, subBits_or, subBits_or]
+        refine ⟨⟨⟨h3'.1.1.1, ?_⟩, ?_⟩, ?_⟩
+        · rw [hm3]; exact subBits_left _ _ _ (subBits_left _ _ _ (subBits_right _ _ _ hh))
+        · rw [hm3]; exact subBits_right _ _ _ hnb
+        · rw [hm3]; exact subBits_left _ _ _ (subBits_right _ _ _ hhet)
 
 end ChythonModel.Proofs.C18
